@@ -45,6 +45,13 @@ impl SubscriptionName {
             .strip_prefix(SUBSCRIPTION_PREFIX)
             .map(|s| s.trim_matches('/'))?;
 
+        // The canonical name (what `Display` writes) is built from the trimmed ID, so it can be
+        // shorter than the input. Make sure it still passes the length check above, or the
+        // name we echo back would be rejected when it is sent to us again.
+        if project_id.len() + subscription_id.len() <= 2 {
+            return None;
+        }
+
         Some(SubscriptionName {
             project_id: project_id.into(),
             subscription_id: subscription_id.into(),
